@@ -341,7 +341,7 @@ Definition alias_of (p : program) (t : nat) (q : name) : bool :=
   | Some c =>
       let related := fun a b => (a =? b) || existsb (Nat.eqb b) (xk_bases (get_class p a))
                                  || existsb (Nat.eqb a) (xk_bases (get_class p b)) in
-      existsb (fun l => let prims := filter (fun e => match snd e with TPrim _ => true | _ => false end) l in
+      existsb (fun l => let prims := filter (fun e => match snd e with TPrim _ | TAnyType => true | _ => false end) l in
                         ((2 <=? length prims) && existsb (fun e => name_eqb (fst e) q) prims)
                         || ((2 <=? length l)
                             && existsb (fun e => name_eqb (fst e) q && match snd e with TPrim f => ft_tokens f | _ => false end) l)
@@ -376,6 +376,11 @@ Definition doc_quirks (pd : program * doc) : list nat :=
       | None => [9]
       end
   end.
+
+(* two outputs of one document under two option sets: the same canonical typed infoset, in the same order *)
+Definition matrix_equal (pab : program * (xdoc * xdoc)) : bool :=
+  let '(p, (a, b)) := pab in
+  ndoc_eqb (S (fuel_of a)) (p_schema p) (fun _ => true) (norm_doc p a) (norm_doc p b).
 
 (* which deviations have instances in the input document at all *)
 Definition doc_active (pd : program * doc) : list nat :=
@@ -533,3 +538,30 @@ Definition doc_diff (pd : program * doc) : list name :=
       let qk := match doc_quirks pd with [9] => quirk_of p [1; 2; 3; 4] | _ => no_quirks end in
       ndoc_diff (S (fuel_of (d_in d))) (p_schema p) (norm_doc_q qk p (d_in d)) (norm_doc_q qk p o)
   end.
+
+(* ---------------------------------------------------------------- the same schema under two option sets *)
+Definition afield_eqb (a b : afield) : bool :=
+  name_eqb (af_name a) (af_name b) && Bool.eqb (af_required a) (af_required b)
+  && opt_eqb str_eqb (af_default a) (af_default b) && Bool.eqb (af_fixed a) (af_fixed b)
+  && opt_eqb (list_eqb str_eqb) (af_enum a) (af_enum b).
+
+Definition opt_same {A} (a b : option A) : bool :=
+  match a, b with Some _, Some _ | None, None => true | _, _ => false end.
+
+(* equal up to collection factories and class nesting (neither is part of the abstract) *)
+Definition class_equiv (a b : xclass) : bool :=
+  meta_equiv (xk_meta a) (xk_meta b) && list_eqb afield_eqb (xk_afields a) (xk_afields b)
+  && opt_same (xk_anyattr a) (xk_anyattr b) && opt_same (xk_text a) (xk_text b).
+
+(* schema types whose classes under the two option sets are not equivalent *)
+(* an empty complex type without attributes may be bound to `object` (no class at all) under one option set and to
+   an empty class under another: both hold exactly the empty element *)
+Definition trivial_type (d : tdef) : bool :=
+  match td_content d, td_attrs d, td_anyattr d with XCEmpty, [], None => true | _, _, _ => false end.
+
+Definition program_inequiv (a b : program) : list nat :=
+  concat (map (fun tc => if trivial_type (get_type (p_schema a) (fst tc)) then [] else
+                         match class_of_type b (fst tc) with
+                         | Some c' => if class_equiv (get_class a (snd tc)) (get_class b c') then [] else [fst tc]
+                         | None => [fst tc]
+                         end) (p_pairs a)).
